@@ -1,4 +1,6 @@
 import CkbVerif.Props.C01
+import CkbVerif.Lemmas.Restart
+import CkbVerif.Gen.Restart
 
 /-!
 # C08 — a crash at any point of block import recovers to a consistent, convergent state
@@ -15,7 +17,12 @@ insert, and any prefix of the search fold — all covered by `crash_point_consis
 Restart = `crash`, then `InitLoadUnverified` re-delivers `scanList` (ordinary `deliver` operations,
 interleaved arbitrarily with `verify`).
 The stored *view* (cells, indexes: C02's replay equality) is not part of this model; the harness
-checks it on the reopened store.
+checks it on the reopened store (and, after a restart, `Snapshot::proposals()`, the current epoch and
+`get_block_status` against a replay and a never-crashed reference node).
+Restart WITHOUT re-delivery (section below): `restart_requeues_all_connectable`,
+`restart_then_missing_delivery_converges` (window hypothesis explicit), `mutant_window_diverges`,
+`window_hypothesis_violated_reachable`; the source text of the scan-window expressions is regenerated
+(`Gen/Restart.lean`) and pinned at the end of this file.
 -/
 namespace CkbVerif.C08
 open CkbVerif.Chain CkbVerif.C01 CkbVerif.Gen.Chain
@@ -227,6 +234,294 @@ theorem crash_convergence (T : Tree) (D : List Nat) (ops ops0 : List Op)
   apply huniq
   · exact cD
   · rw [← heq]; exact t
+
+/-! ## Restart WITHOUT re-delivery: the scan window must cover every stored-unverified block
+
+`crash_convergence` above needs every block of `D` to be `seen` again after the last crash; a harness (or
+a sync layer) that simply re-delivers everything hides what the start-up scan is for. The theorems below
+say what the scan itself guarantees, and exactly which hypothesis about its window convergence needs. -/
+
+/-- block data present, no ext: the marker `InitLoadUnverified` looks for -/
+def StoredUnverified (s : State) (b : Nat) : Prop := s.stored b = true ∧ s.td b = none ∧ b ≠ 0
+
+/-- `b` lies inside the TRUE scan window of a store whose tip is `s.tip`: it is listed in the NUMBER_HASH
+column (`order`), its number is in `[max 1 (tip − EXPIRED_EPOCH·max_epoch_length), tip + 10·BLOCK_DOWNLOAD_WINDOW]`
+and — for numbers above the tip — every number between the tip and it has a stored-unverified block
+("cut at the first number above the tip with no such block"). -/
+def InWindow (T : Tree) (mel : Nat) (order : List Nat) (s : State) (b : Nat) : Prop :=
+  b ∈ order ∧
+  max 1 (T.num s.tip - EXPIRED_EPOCH * mel) ≤ T.num b ∧
+  T.num b ≤ T.num s.tip + BLOCK_DOWNLOAD_WINDOW * INIT_LOAD_WINDOW_FACTOR ∧
+  (∀ i, i < T.num b - T.num s.tip →
+    ∃ x, (x ∈ order ∧ s.stored x = true ∧ s.td x = none ∧ x ≠ 0) ∧ T.num x = T.num s.tip + 1 + i)
+
+theorem inWindow_scanned {T : Tree} {mel : Nat} {order : List Nat} {s : State} {b : Nat}
+    (hb : StoredUnverified s b) (hw : InWindow T mel order s b) : b ∈ scanList T mel order s :=
+  (unverified_resubmitted T mel order s b).mpr ⟨⟨hw.1, hb.1, hb.2.1, hb.2.2⟩, hw.2.1, hw.2.2.1, hw.2.2.2⟩
+
+theorem scanned_storedUnverified {T : Tree} {mel : Nat} {order : List Nat} {s : State} {b : Nat}
+    (h : b ∈ scanList T mel order s) : StoredUnverified s b ∧ InWindow T mel order s b := by
+  obtain ⟨⟨h1, h2, h3, h4⟩, h5, h6, h7⟩ := (unverified_resubmitted T mel order s b).mp h
+  exact ⟨⟨h2, h3, h4⟩, h1, h5, h6, h7⟩
+
+theorem delivered_restartOps (T : Tree) (mel : Nat) (order : List Nat) (s : State) :
+    delivered (restartOps T mel order s) = scanList T mel order (crash s) := by
+  unfold restartOps
+  induction scanList T mel order (crash s) with
+  | nil => rfl
+  | cons x xs ih => simp [delivered, ih]
+
+theorem crashFree_restartOps (T : Tree) (mel : Nat) (order : List Nat) (s : State) :
+    crashFree (restartOps T mel order s) := by
+  intro op hop
+  unfold restartOps at hop
+  obtain ⟨x, _, rfl⟩ := List.mem_map.mp hop
+  exact fun hc => Op.noConfusion hc
+
+/-- **restart_requeues_all_connectable**: crash in ANY reachable state (any history, earlier crashes
+included), then the start-up scan with the true window. Right after the scan (before the verify thread
+has done anything) every stored-without-ext block inside the window is in the verify queue or in the
+orphan pool — none is rejected, none is skipped — its data is still stored, it still has no ext, and it
+counts as received (`seen`). Moreover the scan marks nothing BLOCK_INVALID, deletes nothing, touches no
+ext and does not run the orphan expiry. (No validity hypothesis on the blocks: a contextually invalid
+block is queued too and fails later.) -/
+theorem restart_requeues_all_connectable (T : Tree) (s : State) (h : Reachable T s) (mel : Nat)
+    (order : List Nat) :
+    (∀ b, StoredUnverified (crash s) b → InWindow T mel order (crash s) b →
+      (b ∈ (run T (crash s) (restartOps T mel order s)).queue ∨
+        b ∈ (run T (crash s) (restartOps T mel order s)).pool) ∧
+      (run T (crash s) (restartOps T mel order s)).stored b = true ∧
+      (run T (crash s) (restartOps T mel order s)).td b = none ∧
+      (run T (crash s) (restartOps T mel order s)).seen b = true) ∧
+    (∀ x, (run T (crash s) (restartOps T mel order s)).invalid x = false) ∧
+    (run T (crash s) (restartOps T mel order s)).td = s.td ∧
+    (∀ y, s.stored y = true → (run T (crash s) (restartOps T mel order s)).stored y = true) ∧
+    (run T (crash s) (restartOps T mel order s)).expiryFired = false := by
+  obtain ⟨ops, rfl⟩ := h
+  have hnc : ∀ b ∈ scanList T mel order (crash (run T (init T) ops)), b ≠ 0 ∧ T.nc b = true := by
+    intro b hb
+    obtain ⟨⟨h1, _, h3⟩, _⟩ := scanned_storedUnverified hb
+    exact ⟨h3, (stored_reachable T ops b h3 h1).2⟩
+  have hni : NoInv (crash (run T (init T) ops)) := fun _ => rfl
+  obtain ⟨k, m⟩ := run_delivers T _ (crash (run T (init T) ops)) hni hnc
+  refine ⟨fun b hb hw => ?_, k.noInv, k.td, k.stored, k.fired⟩
+  obtain ⟨m1, m2, m3⟩ := m b (inWindow_scanned hb hw)
+  exact ⟨m1, m2, by rw [show (run T (crash (run T (init T) ops)) (restartOps T mel order (run T (init T) ops))).td = _ from k.td]; exact hb.2.1, m3⟩
+
+/-- **restart_then_missing_delivery_converges**: `ops1` is any history (crashes included) whose
+deliveries belong to `D`; the process dies; the start-up scan runs; afterwards `more` (crash-free, any
+interleaving of deliveries of blocks of `D`, verify steps and expiry ticks) is executed and ends
+quiescent without an expiry. Hypotheses:
+* `hwin` (the WINDOW HYPOTHESIS): every stored-without-ext block lies inside the true scan window;
+* `hmiss`: every block of `D` either has an ext at the crash, or is stored at the crash, or is delivered
+  by `more` — i.e. only the blocks that were NEVER STORED need to be delivered, no stored block is
+  re-delivered by anybody but the scan.
+Then the total difficulty equals that of any crash-free quiescent history delivering exactly `D`, and
+the tips agree when the heaviest fully valid chain is unique.
+Which reachable states violate `hwin`: exactly those with a stored-without-ext block `b` whose number is
+below `tip − EXPIRED_EPOCH·max_epoch_length` (an orphan older than six maximal epochs: the orphan expiry
+would have dropped it anyway — lost by design, the sync layer fetches it again), or above a number gap
+over the tip / beyond `tip + 10·BLOCK_DOWNLOAD_WINDOW` (`window_hypothesis_violated_reachable` below
+exhibits one; `mutant_window_diverges` shows that with a window of EXPIRED_EPOCH BLOCKS the conclusion
+fails on an ordinary short history). -/
+theorem restart_then_missing_delivery_converges (T : Tree) (D : List Nat) (ops1 more ops0 : List Op)
+    (mel : Nat) (order : List Nat)
+    (hc0 : crashFree ops0) (hD0 : ∀ b, b ∈ delivered ops0 ↔ b ∈ D)
+    (hsub1 : ∀ b, b ∈ delivered ops1 → b ∈ D) (hsubm : ∀ b, b ∈ delivered more → b ∈ D)
+    (hcm : crashFree more)
+    (hwin : ∀ b, StoredUnverified (crash (run T (init T) ops1)) b →
+      InWindow T mel order (crash (run T (init T) ops1)) b)
+    (hmiss : ∀ b ∈ D, b ≠ 0 → ((run T (init T) ops1).td b).isSome = true ∨
+      (run T (init T) ops1).stored b = true ∨ b ∈ delivered more)
+    (hq : Quiescent (run T (init T) (ops1 ++ [Op.crash] ++ restartOps T mel order (run T (init T) ops1) ++ more)))
+    (hq0 : Quiescent (run T (init T) ops0))
+    (hx : (run T (init T) (ops1 ++ [Op.crash] ++ restartOps T mel order (run T (init T) ops1) ++ more)).expiryFired = false)
+    (hx0 : (run T (init T) ops0).expiryFired = false) :
+    (run T (init T) (ops1 ++ [Op.crash] ++ restartOps T mel order (run T (init T) ops1) ++ more)).tipTd
+        = (run T (init T) ops0).tipTd ∧
+    ((∀ b, ChainIn T (fun x => x ≠ 0 ∧ x ∈ D) b → TD T b (run T (init T) ops0).tipTd →
+        b = (run T (init T) ops0).tip) →
+      (run T (init T) (ops1 ++ [Op.crash] ++ restartOps T mel order (run T (init T) ops1) ++ more)).tip
+        = (run T (init T) ops0).tip) := by
+  have hrun : run T (init T) (ops1 ++ [Op.crash] ++ restartOps T mel order (run T (init T) ops1) ++ more)
+      = run T (crash (run T (init T) ops1)) (restartOps T mel order (run T (init T) ops1) ++ more) := by
+    rw [List.append_assoc, List.append_assoc, run_append]
+    rfl
+  have hscanD : ∀ b, b ∈ scanList T mel order (crash (run T (init T) ops1)) → b ∈ D := by
+    intro b hb
+    obtain ⟨⟨h1, _, h3⟩, _⟩ := scanned_storedUnverified hb
+    exact hsub1 b (stored_reachable T ops1 b h3 h1).1
+  apply crash_convergence T D _ ops0 hc0 hD0 ?_ ?_ hq hq0 hx hx0
+  · -- every delivery of the whole history belongs to D
+    intro b hb
+    rw [List.append_assoc, List.append_assoc, delivered_append] at hb
+    rcases List.mem_append.mp hb with h1 | h1
+    · exact hsub1 b h1
+    · have : delivered ([Op.crash] ++ (restartOps T mel order (run T (init T) ops1) ++ more))
+          = delivered (restartOps T mel order (run T (init T) ops1) ++ more) := rfl
+      rw [this, delivered_append, delivered_restartOps] at h1
+      rcases List.mem_append.mp h1 with h2 | h2
+      · exact hscanD b h2
+      · exact hsubm b h2
+  · -- every block of D counts as received after the last crash
+    intro b hbD hb0
+    rw [hrun]
+    have hcf : crashFree (restartOps T mel order (run T (init T) ops1) ++ more) := by
+      intro op hop
+      rcases List.mem_append.mp hop with h1 | h1
+      · exact crashFree_restartOps T mel order _ op h1
+      · exact hcm op h1
+    rw [seen_run T _ _ hcf b, delivered_append, delivered_restartOps]
+    rcases hmiss b hbD hb0 with h1 | h1 | h1
+    · exact Or.inl h1
+    · cases htd : (run T (init T) ops1).td b with
+      | some n => left; show ((run T (init T) ops1).td b).isSome = true; rw [htd]; rfl
+      | none =>
+        right
+        refine ⟨hb0, List.mem_append_left _ (inWindow_scanned ⟨h1, htd, hb0⟩ (hwin b ⟨h1, htd, hb0⟩))⟩
+    · exact Or.inr ⟨hb0, List.mem_append_right _ h1⟩
+
+/-! ## Witnesses: the window hypothesis is necessary, and the mutant window breaks convergence
+
+Main chain 1..9 (work 1 each, genesis work 1), competing branch 10 ← 11 ← 12 from genesis where 11
+carries work 20 (so the branch is heavier: 1+1+20+1 = 23 > 10). Blocks 11 and 12 arrive before their
+parent 10 (stored without ext, pooled, numbers 2 and 3 — seven and six below the tip 9); the process
+dies; after the restart only the missing block 10 is delivered. -/
+
+def wTree : Tree :=
+  { parent := fun b => match b with | 10 => 0 | 0 => 0 | b + 1 => b
+    num := fun b => match b with | 10 => 1 | 11 => 2 | 12 => 3 | b => b
+    epoch := fun _ => 0
+    work := fun b => if b = 11 then 20 else 1
+    nc := fun b => decide (b ≤ 12)
+    ok := fun _ => true }
+
+/-- pre-crash history: 1..9 delivered and verified one by one, then the orphans 11, 12 -/
+def wPre : List Op :=
+  (List.range 9).flatMap (fun i => [Op.deliver (i + 1) [], Op.verify]) ++ [.deliver 11 [], .deliver 12 []]
+
+def wOrder : List Nat := [1, 10, 2, 11, 3, 12, 4, 5, 6, 7, 8, 9]
+
+/-- after the restart: only the never-stored block 10, then the verify thread runs -/
+def wMore : List Op := [.deliver 10 [], .verify, .verify, .verify]
+
+/-- the crash-free reference: the same deliveries, no crash -/
+def wRef : List Op := wPre ++ wMore
+
+def wFinal (mel : Nat) : State :=
+  run wTree (init wTree) (wPre ++ [Op.crash] ++ restartOps wTree mel wOrder (run wTree (init wTree) wPre) ++ wMore)
+
+set_option maxRecDepth 4096 in
+/-- the crash-free run reorganises to the heavier branch -/
+example : Quiescent (run wTree (init wTree) wRef) ∧ (run wTree (init wTree) wRef).tip = 12 ∧
+    (run wTree (init wTree) wRef).tipTd = 23 ∧ (run wTree (init wTree) wRef).expiryFired = false := by
+  decide +kernel
+
+set_option maxRecDepth 4096 in
+/-- with the TRUE window (six epochs of `MAX_EPOCH_LENGTH` = 1800 blocks: start = 1) both stored orphans
+are re-submitted and the delivery of the one missing block converges to the crash-free result -/
+example : scanList wTree 1800 wOrder (crash (run wTree (init wTree) wPre)) = [11, 12] ∧
+    Quiescent (wFinal 1800) ∧ (wFinal 1800).tip = 12 ∧ (wFinal 1800).tipTd = 23 ∧
+    (wFinal 1800).expiryFired = false := by
+  decide +kernel
+
+set_option maxRecDepth 4096 in
+/-- **mutant_window_diverges**: with a window of EXPIRED_EPOCH (6) BLOCKS below the tip — what
+`scanList` computes for `maxEpochLen = 1`, the seeded regression `tip_number.saturating_sub(EXPIRED_EPOCH)`
+— block 11 (number 2 < 9 − 6) is never re-submitted, its child 12 waits in the orphan pool for ever and
+the node stays on the lighter chain although it is quiescent and received every block: the conclusion
+of `restart_then_missing_delivery_converges` fails. -/
+theorem mutant_window_diverges :
+    scanList wTree 1 wOrder (crash (run wTree (init wTree) wPre)) = [12] ∧
+    Quiescent (wFinal 1) ∧ (wFinal 1).expiryFired = false ∧
+    (wFinal 1).tipTd = 10 ∧ (wFinal 1).tip = 9 ∧ (wFinal 1).pool = [12] ∧
+    (wFinal 1).stored 11 = true ∧ (wFinal 1).td 11 = none ∧
+    (wFinal 1).tipTd ≠ (run wTree (init wTree) wRef).tipTd := by
+  decide +kernel
+
+set_option maxRecDepth 4096 in
+/-- **window_hypothesis_violated_reachable**: the window hypothesis is a real restriction — the reachable
+state `run wPre` has the stored-without-ext block 11 OUTSIDE the window as soon as the window is shorter
+than its distance to the tip (here: `maxEpochLen = 1`; with the real constant the same happens for an
+orphan more than 6·1800 blocks below the tip). Such a block is not re-submitted (lost by design). -/
+theorem window_hypothesis_violated_reachable :
+    Reachable wTree (run wTree (init wTree) wPre) ∧
+    StoredUnverified (crash (run wTree (init wTree) wPre)) 11 ∧
+    ¬ InWindow wTree 1 wOrder (crash (run wTree (init wTree) wPre)) 11 ∧
+    11 ∉ scanList wTree 1 wOrder (crash (run wTree (init wTree) wPre)) := by
+  refine ⟨⟨wPre, rfl⟩, ?_, ?_, ?_⟩
+  · refine ⟨?_, ?_, by decide⟩ <;> decide +kernel
+  · intro h
+    have : max 1 (wTree.num (crash (run wTree (init wTree) wPre)).tip - EXPIRED_EPOCH * 1) ≤ wTree.num 11 := h.2.1
+    revert this
+    decide +kernel
+  · decide +kernel
+
+set_option maxRecDepth 4096 in
+/-- the hypotheses of `restart_requeues_all_connectable` are satisfiable with the real constant: both
+orphans are stored-unverified and inside the window of the crashed store (and the theorem then puts
+them into the queue or the pool: here the pool, their parent 10 is missing) -/
+example : Reachable wTree (run wTree (init wTree) wPre) ∧
+    (StoredUnverified (crash (run wTree (init wTree) wPre)) 11 ∧
+      InWindow wTree 1800 wOrder (crash (run wTree (init wTree) wPre)) 11) ∧
+    (StoredUnverified (crash (run wTree (init wTree) wPre)) 12 ∧
+      InWindow wTree 1800 wOrder (crash (run wTree (init wTree) wPre)) 12) ∧
+    (run wTree (crash (run wTree (init wTree) wPre))
+      (restartOps wTree 1800 wOrder (run wTree (init wTree) wPre))).pool = [12, 11] := by
+  have hscan : scanList wTree 1800 wOrder (crash (run wTree (init wTree) wPre)) = [11, 12] := by decide +kernel
+  refine ⟨⟨wPre, rfl⟩, scanned_storedUnverified (by rw [hscan]; simp),
+    scanned_storedUnverified (by rw [hscan]; simp), by decide +kernel⟩
+
+set_option maxRecDepth 4096 in
+/-- non-vacuity of `restart_then_missing_delivery_converges`: all its hypotheses hold for the witness
+history with the real window (D = everything the crash-free run delivers) -/
+example : (wFinal 1800).tipTd = (run wTree (init wTree) wRef).tipTd := by
+  have hpre : delivered wPre = [1, 2, 3, 4, 5, 6, 7, 8, 9, 11, 12] := by decide
+  have hscan : scanList wTree 1800 wOrder (crash (run wTree (init wTree) wPre)) = [11, 12] := by decide +kernel
+  have hwin : ∀ b, StoredUnverified (crash (run wTree (init wTree) wPre)) b →
+      InWindow wTree 1800 wOrder (crash (run wTree (init wTree) wPre)) b := by
+    intro b hb
+    have hmem := (stored_reachable wTree wPre b hb.2.2 hb.1).1
+    rw [hpre] at hmem
+    have h1112 : b = 11 ∨ b = 12 := by
+      have htd := hb.2.1
+      simp only [List.mem_cons, List.mem_nil_iff, or_false] at hmem
+      rcases hmem with h | h | h | h | h | h | h | h | h | h | h
+      all_goals first
+        | exact Or.inl h
+        | exact Or.inr h
+        | (subst h; revert htd; decide +kernel)
+    have : b ∈ scanList wTree 1800 wOrder (crash (run wTree (init wTree) wPre)) := by
+      rw [hscan]; rcases h1112 with h | h <;> simp [h]
+    exact (scanned_storedUnverified this).2
+  have hmiss : ∀ b ∈ delivered wRef, b ≠ 0 → ((run wTree (init wTree) wPre).td b).isSome = true ∨
+      (run wTree (init wTree) wPre).stored b = true ∨ b ∈ delivered wMore := by
+    decide +kernel
+  exact (restart_then_missing_delivery_converges wTree (delivered wRef) wPre wMore wRef 1800 wOrder
+    (by decide) (fun _ => Iff.rfl)
+    (fun b hb => by
+      have : delivered wRef = delivered wPre ++ delivered wMore := delivered_append wPre wMore
+      rw [this]; exact List.mem_append_left _ hb)
+    (fun b hb => by
+      have : delivered wRef = delivered wPre ++ delivered wMore := delivered_append wPre wMore
+      rw [this]; exact List.mem_append_right _ hb)
+    (by decide) hwin hmiss (by decide +kernel) (by decide +kernel) (by decide +kernel) (by decide +kernel)).1
+
+/-! ## The scan window of the source is the modelled one (regenerated expression shapes)
+
+`bin/gen_model` extracts the TEXT of the expressions below from /repo on every run; if the source
+changes (e.g. the factor `max_epoch_length()` is dropped) these stop compiling and the check fails. -/
+
+example : Gen.Restart.SCAN_START_EXPR = "EXPIRED_EPOCH * self.shared.consensus().max_epoch_length()" := by decide
+example : Gen.Restart.SCAN_END_EXPR = "tip_number + BLOCK_DOWNLOAD_WINDOW * 10" := by decide
+example : Gen.Restart.SCAN_RANGE_EXPR = "start_check_number..=end_check_number" := by decide
+example : Gen.Restart.SCAN_CUT_EXPR = "check_unverified_number > tip_number && unverified_hashes.is_empty()" := by decide
+example : Gen.Restart.SCAN_TIP_EXPR = "self.shared.snapshot().tip_number()" := by decide
+example : Gen.Restart.MAX_EPOCH_LENGTH_GETTER = "MAX_EPOCH_LENGTH" := by decide
+example : Gen.Restart.MAX_EPOCH_LENGTH_EXPR = "DEFAULT_EPOCH_DURATION_TARGET / MIN_BLOCK_INTERVAL" := by decide
+example : Gen.Restart.PROPOSAL_INIT_START_EXPR = "tip_number.saturating_sub(proposal_window.farthest())" := by decide
+/-- `Consensus::max_epoch_length()` as regenerated; the window is 6 × 1800 = 10800 blocks -/
+example : EXPIRED_EPOCH * (Gen.Restart.DEFAULT_EPOCH_DURATION_TARGET / Gen.Restart.MIN_BLOCK_INTERVAL) = 10800 := by decide
 
 /-! ## Non-vacuity -/
 
